@@ -153,6 +153,17 @@ func sameReads(a, b []rawRead) bool {
 func oracleC18(r *Rng, n int, thorough bool, seeds []string) *OracleResult {
 	res := &OracleResult{Tags: map[string]int{}}
 	seen := map[uint64]struct{}{}
+	// Failures are kept per class (4 each) so that a flood of one class - the
+	// known findings on the read side - cannot push another class out of the list.
+	perClass := map[string]int{}
+	fail := func(f Failure) {
+		res.NFailures++
+		res.Tags["fail:"+f.Class]++
+		if perClass[f.Class] < 4 {
+			perClass[f.Class]++
+			res.Failures = append(res.Failures, f)
+		}
+	}
 	sample := func(line string) {
 		if len(res.Samples) < 4 {
 			if len(line) > 300 {
@@ -188,8 +199,7 @@ func oracleC18(r *Rng, n int, thorough bool, seeds []string) *OracleResult {
 			}
 		}()
 		if what != "" {
-			res.Tags["fail:"+class]++
-			res.fail(Failure{Oracle: "c18", Input: line, What: what, Class: class})
+			fail(Failure{Oracle: "c18", Input: line, What: what, Class: class})
 		}
 		sample(line)
 	}
@@ -238,8 +248,7 @@ func oracleC18(r *Rng, n int, thorough bool, seeds []string) *OracleResult {
 			if len(what) > 600 {
 				what = what[:600] + "..."
 			}
-			res.Tags["fail:"+class]++
-			res.fail(Failure{Oracle: "c18", Input: line, What: what, Class: class})
+			fail(Failure{Oracle: "c18", Input: line, What: what, Class: class})
 		}
 		sample(line)
 	}
